@@ -54,6 +54,9 @@ fn main() {
             let id = arg(&args, "--prop").expect("--prop");
             let tier = Tier::parse(&arg(&args, "--tier").unwrap_or_else(|| "quick".into()));
             let file = arg(&args, "--file").expect("--file");
+            if let Some(e) = arg(&args, "--expect") {
+                runner::set_expect(&e);
+            }
             let (code, v) = runner::replay_raw(find(&id), tier, &file);
             if cmd == "replay" {
                 if let Some(c) = v["case"].as_str() {
@@ -68,6 +71,22 @@ fn main() {
             }
             println!("{}", v);
             std::process::exit(code);
+        }
+        "dump" => {
+            // debugging aid: print apollo-parser's view of a text
+            let text = arg(&args, "--text").unwrap_or_default();
+            let rl = arg(&args, "--rl").and_then(|s| s.parse().ok());
+            let tl = arg(&args, "--tl").and_then(|s| s.parse().ok());
+            let p = vh::apollo::parse::parse(vh::apollo::parse::Entry::Document, &text, tl, rl);
+            println!("recursion high={} limit={}; token high={} limit={}", p.recursion_high, p.recursion_limit, p.token_high, p.token_limit);
+            println!("tree text: {:?}", p.root.text().to_string());
+            for e in &p.errors {
+                println!("error @{}+{} {:?} limit={} eof={}", e.index, e.len, e.message, e.is_limit, e.is_eof);
+            }
+            if args.iter().any(|a| a == "--tree") {
+                println!("{:#?}", p.root);
+            }
+            println!("reference: {:?}", vh::refmodel::parser::parse_document(&text).map(|d| d.defs.len()));
         }
         "aux" => {
             // auxiliary child entry points used by custom stages
